@@ -36,6 +36,9 @@ struct vs_record {
     uint8_t nalt[VS_MAXP];
     uint8_t flags[VS_MAXP];
     uint32_t sig[VS_MAXP];      /* fingerprint of the enabled set at this point: replay must reproduce it */
+    int pruned_at;              /* stateful exploration: index of the first choice point at or after a state that had been visited before (no alternatives from there on) */
+    int new_states;             /* stateful exploration: states this execution was the first to reach */
+    int table_full;
 };
 
 /* event kinds written by the runtime itself (harness kinds start at 100) */
@@ -66,6 +69,9 @@ struct vs_options {
     const uint8_t *exp_nalt; const uint32_t *exp_sig; int exp_len; /* expected shape of the replayed part (may be NULL) */
     uint64_t *state_table; uint64_t state_mask;      /* shared fingerprint set (counting only) */
     uint64_t (*state_cb)(void);                      /* harness contribution to the state fingerprint */
+    uint64_t *prune_table; uint64_t prune_mask, prune_salt; /* stateful exploration: visited-state set shared by all workers (NULL = stateless) */
+    int prune_audit;                                 /* audit of the stateful pass: look states up and count them, but never cut an execution off */
+    void (*park_cb)(int tid);                        /* called by a thread that is about to block in a condition wait, while it still owns the mutex */
 };
 
 /* ---- explorer side ---- */
